@@ -48,7 +48,7 @@ ASSUMPTIONS = [
 ]
 REQUIRED_CLASSES = {
     "all": ["structure=free", "structure=adjoint_pair", "structure=hermitian_square", "structure=sandwich",
-            "structure=recurrence", "hermitian_flag", "mode=scalar", "mode=complex", "n_inf=3", "factors=4", "predeclared"]
+            "structure=recurrence", "hermitian_flag", "identity-in-hermitian-product", "mode=scalar", "mode=complex", "n_inf=3", "factors=4", "predeclared"]
 }
 
 
@@ -109,7 +109,9 @@ def _case(draw, tier):
         while sum(orders) > maxtot:
             orders[orders.index(max(orders))] -= 1
         requests.append([draw(st.integers(0, dims[0] - 1)), draw(st.integers(0, dims[-1] - 1))] + orders)
+    ident_pair = structure == "adjoint_pair" and dims[0] == dims[1] and sizes[0] == sizes[1] and draw(st.booleans())
     return {
+        "ident_pair": ident_pair,
         "structure": structure,
         "n_inf": n_inf,
         "mode": mode,
@@ -207,6 +209,8 @@ class Factors:
                 return "one" if i == j else None
             return self._raw(t, i, j, orders, s[t][i], s[t + 1][j])
         if st_ == "adjoint_pair":  # factors: A^dagger (q x p), A (p x q)
+            if c.get("ident_pair") and sum(orders) == 0:
+                return "one" if i == j else None  # A = 1 + A' (like U), so A^dagger = 1 + A'^dagger
             if t == 1:
                 return self._raw(0, i, j, orders, s[1][i], s[2][j])
             return self.dag(self._raw(0, j, i, orders, s[1][j], s[2][i]))
@@ -326,7 +330,7 @@ def check_case(case, enforce_all=False):
             if F.predeclared_zero(t, idx):
                 data[idx] = zero
                 any_predeclared = True
-            elif case["structure"] == "free" and case["identity"][t] and sum(idx[2:]) == 0:
+            elif ((case["structure"] == "free" and case["identity"][t]) or case.get("ident_pair")) and sum(idx[2:]) == 0:
                 data[idx] = to_lib(F.value(t, idx))
 
         def ev(*index, t=t):
@@ -386,6 +390,18 @@ def check_case(case, enforce_all=False):
         if sum(n) >= 2 and n_terms >= 2 and (sentinel_in_play or case["hermitian_flag"] or k >= 3 or n_inf >= 2):
             out.nontrivial = True
         out.info["max_terms"] = max(out.info.get("max_terms", 0), n_terms)
+    # the factors' own (cached) elements must still hold the values they were given: no in-place accumulation
+    for t, fidx, _ in log:
+        try:
+            cur = series[t][fidx]
+        except Exception as exc:  # noqa: BLE001
+            out.fail("exception", f"re-reading factor {t} at {list(fidx)} raised {type(exc).__name__}: {exc}")
+            return out
+        if not _same(cur, F.value(t, fidx), zero, one, scalar):
+            out.fail("factor-mutated", f"element {list(fidx)} of factor {t} changed while the product was evaluated: now {_show(cur)}, given {_show(F.value(t, fidx))}")
+            return out
+    if case.get("ident_pair"):
+        out.labels.append("identity-in-hermitian-product" if case["hermitian_flag"] else "identity-in-adjoint-pair")
     return out
 
 
